@@ -3,6 +3,7 @@ import MaltModel.Cfg.Check
 import MaltModel.Proofs.C05Check
 import MaltModel.Proofs.C05Paths2
 import MaltModel.Proofs.C05Wf
+import MaltModel.Proofs.C05Owners
 /-!
 # C05 — the control-flow graph contains every control path that can execute
 
@@ -87,6 +88,25 @@ theorem C05_stmt_edges (b : B) (s : Nat) (l : List NodeId) :
     cases hk
     exact mem_stmtPrevOf _ _ _ _
 
+/-- The builder's `owners` (what `stmt_prev`/`stmt_next` are computed from) is lexical containment: for every function
+of the modelled language (including `try`/`except`/`finally`) whose statement ids are distinct, the nodes of the root
+graph, in creation order, each paired with its owners, are exactly `fnOwnSpec fn` — the direct recursive definition
+"node `n` is contained in the if/while/for/try/except statement `s` iff it is created while visiting `s`", i.e. the
+enclosing statements of the node in the AST (`Proofs/C05Owners.lean`).  Together with `C05_stmt_edges`:
+`stmt_next[s]` = targets of edges leaving the lexical extent of `s`. -/
+theorem C05_owners_lexical (i : Nat) (name : String) (args : Expr) (body : List Stmt) (decs rets : List Expr) (g : Graph)
+    (hs : fnSupported (.functionDef i name args body decs rets false) = true)
+    (hd : fnDistinctOwnerIds (.functionDef i name args body decs rets false) = true)
+    (hg : rootGraph (.functionDef i name args body decs rets false) = some g) :
+    g.owners = fnOwnSpec (.functionDef i name args body decs rets false) := by
+  have hgb : g = (rootBuilder (.functionDef i name args body decs rets false)).1.build := by
+    simp only [rootGraph] at hg
+    split at hg
+    · cases hg
+    · exact (Option.some.inj hg).symm
+  subst hgb
+  exact owners_root i name args body decs rets hs hd
+
 /-! ## Every walk is a path of the model's graph
 
 Full statement (kept as the goal; FALSE of the pinned code without the last hypothesis, see the counterexample below):
@@ -156,6 +176,8 @@ def exFn2 : Stmt :=
     [] [] false
 
 example : fnFrag2 exFn2 = true ∧ fnDistinctKeys exFn2 = true ∧ (rootGraph exFn2).isSome = true := by decide
+/-- `C05_owners_lexical` applies to it: the `break` (#15) lies in the for (#4), the try (#7) and the first handler (#13). -/
+example : fnSupported exFn2 = true ∧ fnDistinctOwnerIds exFn2 = true ∧ (fnOwnSpec exFn2).lookup 15 = some [4, 7, 13] := by decide
 /-- first iteration: the raise is caught by the second handler, falls through; second iteration: caught by the first, `break` -/
 example : walkFn 30 exFn2 [1, 1, 1, 1, 1, 0] = ([2, 6, 9, 10, 18, 6, 9, 10, 15], .normal, []) := by decide
 
